@@ -156,7 +156,7 @@ def string_lit(n):
     return None
 
 
-def emitted_for(I, u, f_escape, ch_decl, mode_decl, b, mode):
+def emitted_for_chain(I, u, f_escape, ch_decl, mode_decl, b, mode):
     """(bytes emitted by escape_string for byte b under mode, description) or (None, why)."""
     sb = b - 256 if b >= 128 else b
     env = {ch_decl['id']: const_bv(b, 8, True), mode_decl['id']: const_bv(mode, 32, True)}
@@ -286,14 +286,25 @@ def run(ctx):
 
     # ---- R1
     R = 'C04-R1'
-    loop = [x for x in walk(body_of(esc)) if x.get('kind') == 'CXXForRangeStmt']
-    ctx.require(len(loop) == 1, 'escape_string: range-for not found')
-    chd = None
-    for x in walk(loop[0]):
-        if x.get('kind') == 'VarDecl' and x.get('name') and not x.get('name').startswith('__'):
-            chd = x
-            break
-    ctx.require(chd is not None and int_type_info(dtype(chd)) == (8, True), 'escape_string: loop variable is not a plain char')
+    from peval import PEval, Str, Undecided, Fault
+    PE = PEval([u])
+    ctx.require(len(params_of(esc)) == 2 and 'string' in (dtype(params_of(esc)[0]) or ''), 'escape_string(const std::string&, mode) signature changed')
+
+    def emitted_for(b, mode):
+        """text escape_string produces for the one-byte string [b] under mode: the whole function is
+        partially evaluated on that constant input (helpers, switch, loops folded), nothing is run"""
+        try:
+            r = PE.call_with(esc, [Str(bytes([b])), mode])
+            r2 = PE.call_with(esc, [Str(bytes([0x41, b])), mode])
+        except Undecided as e:
+            raise AnalysisBroken('escape_string: cannot fold the function on the constant byte 0x%02X (%s)' % (b, e))
+        except Fault as e:
+            return None, 'for byte 0x%02X escape_string %s' % (b, e)
+        if not isinstance(r, Str) or not isinstance(r2, Str):
+            raise AnalysisBroken('escape_string does not evaluate to a string for byte 0x%02X' % b)
+        if bytes(r2.b) != b'A' + bytes(r.b):
+            return None, 'the text for byte 0x%02X depends on its position in the string (%r alone, %r after "A")' % (b, bytes(r.b), bytes(r2.b))
+        return bytes(r.b), 'folded'
     moded = params_of(esc)[1]
     mode_enum = {}
     for r_ in u.roots:
@@ -308,7 +319,7 @@ def run(ctx):
     for mname, mval in sorted(mode_enum.items()):
         bad = []
         for b in range(256):
-            em, how = emitted_for(I, u, esc, chd, moded, b, mval)
+            em, how = emitted_for(b, mval)
             key = '%s|0x%02X' % (mname, b)
             if em is None:
                 ctx.bad(R, key, esc, how)
@@ -320,7 +331,7 @@ def run(ctx):
                 ctx.bad(R, key, esc, 'mode %s: byte 0x%02X is serialized as %r, which the parser %s' % (mname, b, em.decode('latin1'), ('decodes to 0x%02X' % got) if got is not None else ('rejects/misreads: ' + why)))
         # STANDARD mode emits only standard JSON escapes (no \x)
         if mname == 'STANDARD':
-            nonstd = [b for b in range(256) if (emitted_for(I, u, esc, chd, moded, b, mval)[0] or b'')[:2] == b'\\x']
+            nonstd = [b for b in range(256) if (emitted_for(b, mval)[0] or b'')[:2] == b'\\x']
             ctx.check(not nonstd, 'C04-R3', 'STANDARD|no-hex-escapes', esc, 'standard mode never emits \\x', 'standard mode emits the non-standard \\x escape for bytes %s' % [hex(b) for b in nonstd[:4]])
 
     # ---- R2 number syntax
@@ -335,7 +346,7 @@ def run(ctx):
     fl = cases.get(3)
     ctx.require(fl is not None, 'serialize: case for the float alternative (index 3) not found')
     appends = []
-    for x in walk(fl):
+    for x in walk_deep(fl, u):
         if x.get('kind') == 'IfStmt':
             cond, then, els = if_parts(x)
             S = set()
@@ -368,11 +379,11 @@ def run(ctx):
               'the suffix rule looks for %s; it must look for exactly the float markers %%g can emit (\'.\' and \'e\'): otherwise %s' % (
                   sorted(chr(c) for c in S), 'text such as 1e+20 gets ".0" appended after the exponent and no longer parses' if ord('e') not in S else ('1.5 gets a second ".0"' if ord('.') not in S else 'integers-looking floats lose their marker and come back as ints')))
     ctx.check(set(lits) == {b'.0'}, R, 'float-marker-suffix', x, 'suffix is ".0"', 'suffix is %s' % lits)
-    fmts = [string_lit(a) for c in walk(fl) if c.get('kind') == 'CallExpr' and call_name(c) == 'string_printf' for a in call_args(c)[:1]]
+    fmts = [string_lit(a) for c in walk_deep(fl, u) if c.get('kind') == 'CallExpr' and call_name(c) == 'string_printf' for a in call_args(c)[:1]]
     ctx.check(fmts == [b'%g'], R, 'float-format', fl, 'floats are printed with %g', 'float format is %s' % fmts)
     ic = cases.get(2)
     ctx.require(ic is not None, 'serialize: case for the int alternative not found')
-    ifmts = sorted(f_ for f_ in (string_lit(a) for c in walk(ic) if c.get('kind') == 'CallExpr' and call_name(c) == 'string_printf' for a in call_args(c)[:1]) if f_)
+    ifmts = sorted(f_ for f_ in (string_lit(a) for c in walk_deep(ic, u) if c.get('kind') == 'CallExpr' and call_name(c) == 'string_printf' for a in call_args(c)[:1]) if f_)
     ctx.check(ifmts == [b'-0x%lX', b'0x%lX'], R, 'hex-format', ic, 'hex integers are 0x / -0x + uppercase digits', 'hex integer formats are %s' % ifmts)
     pbody = body_of(P)
     hexgate = [c for c in walk(pbody) if c.get('kind') == 'CXXMemberCallExpr' and call_name(c) == 'go']
